@@ -332,7 +332,14 @@ func (g *gen) receipt() *tx.Receipt {
 // base returns a valid encoding and its entry point.
 func (g *gen) base() (kind string, enc []byte) {
 	var err error
-	switch g.rng.Intn(10) {
+	switch g.rng.Intn(11) {
+	case 10:
+		kind = "txlist"
+		var l tx.Transactions
+		for i := g.rng.Intn(3); i > 0; i-- {
+			l = append(l, g.tx())
+		}
+		enc, err = rlp.EncodeToBytes(l)
 	case 0, 1:
 		kind = "txbin"
 		enc, err = g.tx().MarshalBinary()
@@ -618,6 +625,116 @@ func ints(b []byte) []int {
 }
 
 // runMutate: implementation -> model. Logs what the real decoders did with every mutant.
+// adversarial inputs: sizes and shapes chosen to make a careless decoder allocate or loop (the termination oracle of
+// observeTimed judges them; the verdict rule "reject or re-encode identically" applies as to every input)
+type advInput struct {
+	kind, op string
+	x        []byte
+}
+
+func nested(depth int) []byte {
+	in := []byte{0xc0}
+	for i := 0; i < depth; i++ {
+		in = append(hdr(0xc0, len(in)), in...)
+	}
+	return in
+}
+
+func (g *gen) adversarial() (out []advInput) {
+	add := func(kind, op string, x []byte) { out = append(out, advInput{kind, op, x}) }
+	// a legal maximum: MaxClausesPerTx clauses of 1 KB each (2.5 MB), and one clause more
+	f := g.txFields()
+	f.typ, f.features = tx.TypeLegacy, 0
+	f.clauses = nil
+	to := g.addr()
+	for i := 0; i < tx.MaxClausesPerTx; i++ {
+		f.clauses = append(f.clauses, tx.NewClause(&to).WithData(g.bytes(1024)))
+	}
+	big := g.sign(f.build(), g.keys[0], g.keys[2])
+	enc, _ := big.MarshalBinary()
+	add("txbin", "adv:max-clauses-x-1KB", enc)
+	if it, rest, ok := splitItem(enc); ok && len(rest) == 0 {
+		root := toMnode(it, 0)
+		cl := root.kids[3]
+		cl.kids = append(cl.kids, cl.kids[0])
+		add("txbin", "adv:max-clauses+1-x-1KB", root.ser())
+		blk, _ := rlp.EncodeToBytes([]any{g.block(0).Header(), []rlp.RawValue{root.ser()}})
+		add("block", "adv:block-with-max-clauses+1-tx", blk)
+	}
+	// a valid small tx with its parts blown up
+	small, _ := g.sign(g.txFields().build(), g.keys[0], g.keys[2]).MarshalBinary()
+	pre, body := []byte{}, small
+	if small[0] <= 0x7f {
+		pre, body = small[:1], small[1:]
+	}
+	if it, rest, ok := splitItem(body); ok && len(rest) == 0 {
+		with := func(i int, raw []byte) []byte {
+			root := toMnode(it, 0)
+			root.kids[i] = &mnode{override: raw}
+			return append(append([]byte{}, pre...), root.ser()...)
+		}
+		ri := len(it.kids) - 2
+		if ks, ok := it.children(); ok {
+			ri = len(ks) - 2
+		}
+		many := func(b byte, n int) []byte { return append(hdr(0xc0, n), bytesOf(b, n)...) }
+		add("txbin", "adv:clauses=60000-empty-lists", with(3, many(0xc0, 60000)))
+		add("txbin", "adv:reserved=60000-items", with(ri, many(0x01, 60000)))
+		add("txbin", "adv:reserved-unused=nested-3000", with(ri, append(hdr(0xc0, 1+len(nested(3000))), append([]byte{0x80}, nested(3000)...)...)))
+		add("txbin", "adv:clauses=nested-3000", with(3, nested(3000)))
+		add("txbin", "adv:signature=1MB", with(ri+1, encStr(g.bytes(1<<20))))
+	}
+	hb := g.block(1)
+	henc, _ := rlp.EncodeToBytes(hb.Header())
+	if it, rest, ok := splitItem(henc); ok && len(rest) == 0 {
+		root := toMnode(it, 0)
+		root.kids[9] = &mnode{override: encStr(g.bytes(1 << 20))}
+		add("header", "adv:signature=1MB", root.ser())
+	}
+	benc, _ := rlp.EncodeToBytes(hb)
+	if it, rest, ok := splitItem(benc); ok && len(rest) == 0 {
+		root := toMnode(it, 0)
+		root.kids[1] = &mnode{override: append(hdr(0xc0, 60000), bytesOf(0x80, 60000)...)}
+		add("block", "adv:txs=60000-empty-strings", root.ser())
+	}
+	valid := map[string][]byte{"txbin": small, "header": henc, "block": benc}
+	valid["txrlp"], _ = rlp.EncodeToBytes(g.tx())
+	valid["txlist"], _ = rlp.EncodeToBytes(tx.Transactions{g.tx(), g.tx()})
+	valid["rcbin"], _ = g.receipt().MarshalBinary()
+	valid["rcrlp"], _ = rlp.EncodeToBytes(g.receipt())
+	for _, kind := range []string{"txbin", "txrlp", "txlist", "header", "block", "rcbin", "rcrlp"} {
+		v := valid[kind]
+		add(kind, "adv:nested-3000", nested(3000))
+		add(kind, "adv:string-in-string-x200", func() []byte {
+			b := v
+			for i := 0; i < 200; i++ {
+				b = encStr(b)
+			}
+			return b
+		}())
+		for _, p := range [][]byte{{0xbf, 255, 255, 255, 255, 255, 255, 255, 255}, {0xff, 255, 255, 255, 255, 255, 255, 255, 255}, {0xfb, 0x7f, 255, 255, 255},
+			{0xbb, 0x7f, 255, 255, 255}, {0xfa, 255, 255, 255}, {0xf9, 255, 255}} {
+			add(kind, "adv:huge-prefix", append(append([]byte{}, p...), v...))
+			if len(v) > 4 {
+				add(kind, "adv:huge-prefix-inside", append(append(append([]byte{}, v[:3]...), p...), v[3:]...))
+			}
+		}
+	}
+	return
+}
+
+func bytesOf(b byte, n int) []byte {
+	out := make([]byte, n)
+	for i := range out {
+		out[i] = b
+	}
+	return out
+}
+
+var untraced, txReuseSeen int
+
+const traceMaxLen = 16 << 10 // longer inputs are judged by the driver only (reject-or-round-trip, budget), not re-derived by TLC
+
 func runMutate(seed int64, n int, out string) {
 	g := newGen(seed)
 	r := &result{Mode: "mutate", Extra: map[string]any{}}
@@ -629,6 +746,13 @@ func runMutate(seed int64, n int, out string) {
 	var kind string
 	var base []byte
 	idx := 0
+	for _, a := range g.adversarial() {
+		ops["adversarial"]++
+		if len(a.x) <= traceMaxLen {
+			idx++
+		}
+		evs, r = logOne(evs, r, idx, a.kind, a.x, a.op, seen, nil, accByKind)
+	}
 	for i := 0; i < n; i++ {
 		if i%8 == 0 {
 			kind, base = g.base()
@@ -647,13 +771,22 @@ func runMutate(seed int64, n int, out string) {
 		fatal("write trace: %v", err)
 	}
 	r.Extra["ops"] = ops
+	r.Extra["inputs_too_long_for_the_trace"] = untraced
+	r.Extra["tx_decoded_into_used_object_keeps_old_id"] = txReuseSeen
 	r.Extra["accepted_by_kind"] = accByKind
 	writeResult(out, r)
 }
 
 func logOne(evs []trace.Ev, r *result, idx int, kind string, x []byte, op string, seen map[string]bool, base []byte, acc map[string]int) ([]trace.Ev, *result) {
-	o := observe(kind, x)
+	o, bd := observeTimed(kind, x)
 	r.Evaluations++
+	if bd != nil {
+		bd.Index, bd.ID = idx, op
+		r.Deviations = append(r.Deviations, *bd)
+	}
+	if o.TxReuse {
+		txReuseSeen++
+	}
 	k := kind + ":" + string(x)
 	if !seen[k] {
 		seen[k] = true
@@ -675,17 +808,27 @@ func logOne(evs []trace.Ev, r *result, idx int, kind string, x []byte, op string
 	case "reject":
 		r.Rejected++
 	}
-	devs := judge(kind, x, false, false, o, op)
+	devs := judge(kind, x, false, false, o, op, modelStream{})
 	for _, d := range devs {
 		d.Index = idx
 		d.ID = op
+		if len(x) > traceMaxLen {
+			d.Index = -1
+			d.Input = hex.EncodeToString(clip(x, 2048)) + "..."
+			d.Reenc = ""
+		}
 		r.Deviations = append(r.Deviations, d)
 	}
-	ev := trace.Ev{"e": "Dec", "i": idx, "kind": kind, "x": ints(x), "ok": o.Verdict == "accept", "same": o.Same, "size": o.Size, "op": op}
-	if o.Verdict == "panic" {
-		ev["panic"] = true
+	if len(x) <= traceMaxLen {
+		ev := trace.Ev{"e": "Dec", "i": idx, "kind": kind, "x": ints(x), "ok": o.Verdict == "accept", "same": o.Same, "size": o.Size, "op": op,
+			"s0ok": o.S0.Verdict == "accept", "s0n": o.S0.N, "s1ok": o.S1.Verdict == "accept", "s1n": o.S1.N}
+		if o.Verdict == "panic" || o.Verdict == "hang" || o.S0.Verdict == "panic" || o.S1.Verdict == "panic" {
+			ev["panic"] = true
+		}
+		evs = append(evs, ev)
+	} else {
+		untraced++
 	}
-	evs = append(evs, ev)
 	if len(r.Samples) < 5 && (op != "valid") && idx%7 == 0 {
 		r.Samples = append(r.Samples, map[string]any{"kind": kind, "mutation": op, "bytes": hex.EncodeToString(clip(x, 80)), "len": len(x),
 			"real": o.Verdict, "reencodes_identically": o.Same, "size": o.Size, "err": clipS(o.Err, 100)})
